@@ -416,3 +416,353 @@ Section VarName.
       + intros ->. rewrite seqb_refl in B2. discriminate.
   Qed.
 End VarName.
+
+(* ---------------------------------------------------------------------------------- *)
+(* One method                                                                          *)
+(* ---------------------------------------------------------------------------------- *)
+Lemma firstn_length_app {A} (l1 l2 : list A) : firstn (length l1) (l1 ++ l2) = l1.
+Proof. induction l1; simpl; [now destruct l2 | now f_equal]. Qed.
+Lemma skipn_length_app {A} (l1 l2 : list A) : skipn (length l1) (l1 ++ l2) = l2.
+Proof. induction l1; simpl; auto. Qed.
+Lemma map_firstn {A B} (f : A -> B) n (l : list A) : map f (firstn n l) = firstn n (map f l).
+Proof. revert l; induction n; intros [|a l]; simpl; auto. now f_equal. Qed.
+Lemma map_skipn {A B} (f : A -> B) n (l : list A) : map f (skipn n l) = skipn n (map f l).
+Proof. revert l; induction n; intros [|a l]; simpl; auto. Qed.
+
+Definition KInv (r : registry) (k : ty * vimports) : Prop :=
+  MInv r (snd k) /\ forall p, In p (imports_of (fst k)) -> lookup_imp p (snd k) <> None.
+Lemma VInv_KInv r vs : Forall (VInv r) vs <-> Forall (KInv r) (map vkey vs).
+Proof. rewrite Forall_map. reflexivity. Qed.
+Lemma KInv_ext r r' k : ext r r' -> KInv r k -> KInv r' k.
+Proof. intros X [A B]. split; [eapply MInv_ext; eauto | exact B]. Qed.
+
+Definition dvars (d : mdata) : list var_ := dparams d ++ dreturns d.
+Definition names_nonblank (vs : list var_) : Prop := Forall (fun v => nonblank (vname v)) vs.
+
+Definition method_shape (m : str * sig) (d : mdata) : Prop :=
+  dname d = fst m /\ map vty (dparams d) = map snd (sparams (snd m)) /\
+  map vty (dreturns d) = map snd (sresults (snd m)) /\ dvariadic d = svariadic (snd m).
+
+Section Method.
+  Variable cx : ctx.
+  Hypothesis TOK : tables_ok cx.
+
+  Lemma fold_add_var_nonblank xs : forall st,
+    names_nonblank (snd st) -> names_nonblank (snd (fold_left (add_var cx) xs st)).
+  Proof.
+    induction xs as [|x xs IH]; intros st H; simpl; [exact H|]. apply IH.
+    destruct st as [[r s] vs]. unfold add_var. destruct (populate cx r s (snd x)) as [[r' s'] m]. simpl.
+    apply Forall_app. split; [exact H|]. constructor; [|constructor]. simpl.
+    apply suggest_nonblank, var_name_nonblank, TOK.
+  Qed.
+
+  Lemma method_data_spec tpn r m :
+    RInv r -> NInv cx r ->
+    let '(r', d) := method_data cx tpn r m in
+    RInv r' /\ NInv cx r' /\ ext r r' /\ method_shape m d /\
+    Forall (KInv r') (map vkey (dvars d)) /\
+    incl (quals r) (dscope0 d) /\ incl tpn (dscope0 d) /\ GScope (dscope0 d) (map vkey (dvars d)) /\
+    names_nonblank (dvars d).
+  Proof.
+    intros RI NI. unfold method_data.
+    pose proof (run_group_spec cx r tpn (sparams (snd m) ++ sresults (snd m)) RI NI) as G.
+    pose proof (fold_add_var_nonblank (sparams (snd m) ++ sresults (snd m)) (r, fold_left add_name tpn (new_scope r), []) (Forall_nil _)) as NB.
+    unfold run_group in *.
+    destruct (fold_left (add_var cx) (sparams (snd m) ++ sresults (snd m)) (r, fold_left add_name tpn (new_scope r), [])) as [[r' s'] vs].
+    destruct G as (A & B & C & D & E & F & TY & GS). simpl in NB.
+    assert (SPLIT : firstn (length (sparams (snd m))) vs ++ skipn (length (sparams (snd m))) vs = vs) by apply firstn_skipn.
+    unfold dvars; simpl. rewrite SPLIT.
+    split; [exact A|]. split; [exact B|]. split; [exact C|]. split.
+    { unfold method_shape; simpl. rewrite map_app in TY.
+      split; [reflexivity|]. split; [|split; [|reflexivity]].
+      - rewrite map_firstn, TY. rewrite <- (map_length snd (sparams (snd m))). apply firstn_length_app.
+      - rewrite map_skipn, TY. rewrite <- (map_length snd (sparams (snd m))). apply skipn_length_app. }
+    split; [now apply VInv_KInv|]. split; [exact D|]. split; [exact E|]. split; [exact GS | exact NB].
+  Qed.
+
+  (* ResolveVariableNameCollisions keeps everything but the names, and the names it
+     chooses are fresh for the scope, pairwise distinct, non-blank *)
+  Lemma resolve_collisions_spec d :
+    let d' := resolve_collisions d in
+    dname d' = dname d /\ dvariadic d' = dvariadic d /\ dscope0 d' = dscope0 d /\
+    map vkey (dparams d') = map vkey (dparams d) /\ map vkey (dreturns d') = map vkey (dreturns d) /\
+    NoDup (map vname (dvars d')) /\
+    (forall n, In n (map vname (dvars d')) -> ~ In n (dscope0 d)) /\
+    (names_nonblank (dvars d) -> names_nonblank (dvars d')) /\
+    incl (dscope0 d) (dscope d') /\ incl (map vname (dvars d')) (dscope d').
+  Proof.
+    unfold resolve_collisions. destruct (resolve_names (dscope0 d) (dparams d ++ dreturns d)) as [s' vs] eqn:E.
+    destruct (resolve_names_spec _ _ _ _ E) as (K & ND & FR & I1 & I2 & NB).
+    assert (SPLIT : firstn (length (dparams d)) vs ++ skipn (length (dparams d)) vs = vs) by apply firstn_skipn.
+    unfold dvars; simpl. rewrite SPLIT. rewrite map_app in K.
+    split; [reflexivity|]. split; [reflexivity|]. split; [reflexivity|]. split; [|split].
+    - rewrite map_firstn, K. rewrite <- (map_length vkey (dparams d)). apply firstn_length_app.
+    - rewrite map_skipn, K. rewrite <- (map_length vkey (dparams d)). apply skipn_length_app.
+    - split; [exact ND|]. split; [exact FR|]. split; [exact NB|]. split; [exact I1 | exact I2].
+  Qed.
+End Method.
+
+(* ---------------------------------------------------------------------------------- *)
+(* C14_names (one method, any reachable registry)                                      *)
+(* ---------------------------------------------------------------------------------- *)
+Theorem names_spec cx (TOK : tables_ok cx) tpn r m :
+  RInv r -> NInv cx r ->
+  let d := resolve_collisions (snd (method_data cx tpn r m)) in
+  let names := map vname (dvars d) in
+  NoDup names /\ Forall nonblank names /\
+  forall n, In n names ->
+    ~ In n (quals r) /\ ~ In n tpn /\
+    forall v, In v (dvars d) ->
+      n <> print_rty (vrty v) /\ forall p, In p (imports_of (vty v)) -> n <> qual_of (vimps v) p.
+Proof.
+  intros RI NI. pose proof (method_data_spec cx TOK tpn r m RI NI) as MS.
+  destruct (method_data cx tpn r m) as [r' d0]. destruct MS as (_ & _ & _ & _ & _ & IQ & IT & GS & NB).
+  simpl. pose proof (resolve_collisions_spec d0) as RS. simpl in RS.
+  destruct RS as (_ & _ & _ & K1 & K2 & ND & FR & NB' & _ & _).
+  split; [exact ND|]. split; [apply Forall_map, NB', NB|].
+  intros n Hn. specialize (FR n Hn). split; [intros H; apply FR, IQ, H|]. split; [intros H; apply FR, IT, H|].
+  intros v Hv.
+  assert (KV : In (vkey v) (map vkey (dvars d0))).
+  { unfold dvars in *. rewrite map_app, <- K1, <- K2, <- map_app. now apply in_map. }
+  destruct (GS _ KV) as [G1 G2]. split.
+  - intros ->. apply FR. exact G1.
+  - intros p Hp ->. apply FR. exact (G2 p Hp).
+Qed.
+
+(* ---------------------------------------------------------------------------------- *)
+(* Interfaces and files                                                                *)
+(* ---------------------------------------------------------------------------------- *)
+Definition ivars (i : idata) : list var_ := flat_map dvars (i_methods i) ++ i_tparams i.
+
+Definition iface_shape (i : iface) (id : idata) : Prop :=
+  i_name id = if_name i /\ i_struct id = if_struct i /\
+  Forall2 method_shape (if_methods i) (i_methods id) /\ map vty (i_tparams id) = map snd (if_tparams i).
+
+Lemma map_vty_vkey vs : map vty vs = map fst (map vkey vs).
+Proof. rewrite map_map. reflexivity. Qed.
+
+Section File.
+  Variable cx : ctx.
+  Hypothesis TOK : tables_ok cx.
+
+  Lemma method_shape_rc m d : method_shape m d -> method_shape m (resolve_collisions d).
+  Proof.
+    intros (A & B & C & D). destruct (resolve_collisions_spec d) as (N & V & _ & K1 & K2 & _).
+    unfold method_shape. rewrite N, V. repeat split; auto.
+    - rewrite map_vty_vkey, K1, <- map_vty_vkey. exact B.
+    - rewrite map_vty_vkey, K2, <- map_vty_vkey. exact C.
+  Qed.
+
+  Lemma vkeys_rc ds : map vkey (flat_map dvars (map resolve_collisions ds)) = map vkey (flat_map dvars ds).
+  Proof.
+    induction ds as [|d ds IH]; simpl; [reflexivity|]. rewrite !map_app, IH. f_equal.
+    destruct (resolve_collisions_spec d) as (_ & _ & _ & K1 & K2 & _). unfold dvars. now rewrite !map_app, K1, K2.
+  Qed.
+
+  Lemma methods_data_spec tpn ms : forall r,
+    RInv r -> NInv cx r ->
+    let '(r', ds) := methods_data cx tpn r ms in
+    RInv r' /\ NInv cx r' /\ ext r r' /\ Forall2 method_shape ms ds /\ Forall (KInv r') (map vkey (flat_map dvars ds)).
+  Proof.
+    induction ms as [|m ms IH]; intros r RI NI; simpl.
+    - split; [exact RI|]. split; [exact NI|]. split; [apply ext_refl|]. split; constructor.
+    - pose proof (method_data_spec cx TOK tpn r m RI NI) as MS.
+      destruct (method_data cx tpn r m) as [r1 d]. destruct MS as (RI1 & NI1 & X1 & SH & KI & _).
+      specialize (IH r1 RI1 NI1). destruct (methods_data cx tpn r1 ms) as [r2 ds].
+      destruct IH as (RI2 & NI2 & X2 & SH2 & KI2).
+      split; [exact RI2|]. split; [exact NI2|]. split; [eapply ext_trans; eauto|]. split; [now constructor|].
+      simpl. rewrite map_app. apply Forall_app. split; [|exact KI2].
+      eapply Forall_impl; [|exact KI]. intros k. apply KInv_ext, X2.
+  Qed.
+
+  Lemma gen_iface_spec r i :
+    RInv r -> NInv cx r ->
+    let '(r', id) := gen_iface cx r i in
+    RInv r' /\ NInv cx r' /\ ext r r' /\ iface_shape i id /\ Forall (KInv r') (map vkey (ivars id)).
+  Proof.
+    intros RI NI. unfold gen_iface.
+    pose proof (methods_data_spec (map (fun it => lname (fst it)) (if_tparams i)) (if_methods i) r RI NI) as MS.
+    destruct (methods_data cx (map (fun it => lname (fst it)) (if_tparams i)) r (if_methods i)) as [r1 ds].
+    destruct MS as (RI1 & NI1 & X1 & SH & KI).
+    pose proof (run_group_spec cx r1 [] (if_tparams i) RI1 NI1) as G.
+    destruct (run_group cx r1 [] (if_tparams i)) as [[r2 s2] tps].
+    destruct G as (RI2 & NI2 & X2 & _ & _ & VI & TY & _).
+    split; [exact RI2|]. split; [exact NI2|]. split; [eapply ext_trans; eauto|]. split.
+    - unfold iface_shape; simpl. repeat split; auto.
+      clear - SH TOK. induction SH; simpl; constructor; auto using method_shape_rc.
+    - unfold ivars; simpl. rewrite map_app, vkeys_rc. apply Forall_app. split.
+      + eapply Forall_impl; [|exact KI]. intros k. apply KInv_ext, X2.
+      + now apply VInv_KInv.
+  Qed.
+
+  Lemma gen_ifaces_spec is : forall r,
+    RInv r -> NInv cx r ->
+    let '(r', ids) := gen_ifaces cx r is in
+    RInv r' /\ NInv cx r' /\ ext r r' /\ Forall2 iface_shape is ids /\ Forall (KInv r') (map vkey (flat_map ivars ids)).
+  Proof.
+    induction is as [|i is IH]; intros r RI NI; simpl.
+    - split; [exact RI|]. split; [exact NI|]. split; [apply ext_refl|]. split; constructor.
+    - pose proof (gen_iface_spec r i RI NI) as GS.
+      destruct (gen_iface cx r i) as [r1 id]. destruct GS as (RI1 & NI1 & X1 & SH & KI).
+      specialize (IH r1 RI1 NI1). destruct (gen_ifaces cx r1 is) as [r2 ids].
+      destruct IH as (RI2 & NI2 & X2 & SH2 & KI2).
+      split; [exact RI2|]. split; [exact NI2|]. split; [eapply ext_trans; eauto|]. split; [now constructor|].
+      simpl. rewrite map_app. apply Forall_app. split; [|exact KI2].
+      eapply Forall_impl; [|exact KI]. intros k. apply KInv_ext, X2.
+  Qed.
+
+  Lemma gen_file_spec dstp inp is :
+    let f := gen_file cx dstp inp is in
+    RInv (f_registry f) /\ NInv cx (f_registry f) /\ dst (f_registry f) = dstp /\ inpkg (f_registry f) = inp /\
+    Forall2 iface_shape is (f_ifaces f) /\ Forall (KInv (f_registry f)) (map vkey (flat_map ivars (f_ifaces f))).
+  Proof.
+    unfold gen_file.
+    assert (RI0 : RInv {| dst := dstp; inpkg := inp; imports := [] |}) by (split; constructor).
+    assert (NI0 : NInv cx {| dst := dstp; inpkg := inp; imports := [] |}) by (intros i []).
+    pose proof (gen_ifaces_spec is _ RI0 NI0) as GS.
+    destruct (gen_ifaces cx {| dst := dstp; inpkg := inp; imports := [] |} is) as [r ids].
+    destruct GS as (RI & NI & (D & I & _) & SH & KI). simpl in *. repeat split; auto; apply RI.
+  Qed.
+End File.
+
+(* ---------------------------------------------------------------------------------- *)
+(* Import closure and denotation for a whole file                                      *)
+(* ---------------------------------------------------------------------------------- *)
+Lemma refs_imports t : forall p n, In (RefObj (Some p) n) (refs t) -> In p (imports_of t).
+Proof.
+  assert (L : forall (l : list (label * ty)) p n,
+             Fitems (fun t => forall p n, In (RefObj (Some p) n) (refs t) -> In p (imports_of t)) l ->
+             In (RefObj (Some p) n) (flat_map (fun it => refs (snd it)) l) ->
+             In p (flat_map (fun it => imports_of (snd it)) l)).
+  { intros l p n F H. apply in_flat_map in H as (it & Hit & Hr). apply in_flat_map. exists it. split; [exact Hit|].
+    unfold Fitems in F. rewrite Forall_forall in F. eapply F; eauto. }
+  induction t as [n| |p n l IH|p n l IH|e IH|e IH|len e IH|k e IHk IHe|d e IH|ps v rs IHp IHr|fs IH|ms es IHm IHe|ts IH|n] using ty_ind';
+    intros q m H; simpl in *.
+  - destruct H as [H|[]]; discriminate.
+  - destruct H as [H|[]]. injection H as <- _. now left.
+  - destruct H as [H|H]; [injection H as -> _; now left|]. apply in_or_app. right. eapply L; eauto.
+  - destruct H as [H|H]; [injection H as -> _; now left|]. apply in_or_app. right. eapply L; eauto.
+  - eauto.
+  - eauto.
+  - eauto.
+  - apply in_app_or in H as [H|H]; apply in_or_app; [left | right]; eauto.
+  - eauto.
+  - apply in_app_or in H as [H|H]; apply in_or_app; [left | right]; eapply L; eauto.
+  - eapply L; eauto.
+  - apply in_app_or in H as [H|H]; apply in_or_app; [left | right]; eapply L; eauto.
+  - eapply L; eauto.
+  - destruct H as [H|[]]; discriminate.
+Qed.
+
+Lemma find_qual_in_nodup l i : NoDup (map qualifier l) -> In i l -> find_qual (qualifier i) l = Some i.
+Proof.
+  induction l as [|j t IH]; simpl; [tauto|]. intros ND [->|H].
+  - now rewrite seqb_refl.
+  - inversion ND as [|? ? Hn ND']; subst. destruct (seqb (qualifier i) (qualifier j)) eqn:E.
+    + apply seqb_eq in E. exfalso. apply Hn. rewrite <- E. now apply in_map.
+    + now apply IH.
+Qed.
+
+Lemma find_qual_some q l i : find_qual q l = Some i -> In i l /\ qualifier i = q.
+Proof.
+  induction l as [|j t IH]; simpl; [discriminate|].
+  destruct (seqb q (qualifier j)) eqn:E.
+  - intros H; injection H as <-. apply seqb_eq in E. auto.
+  - intros H. apply IH in H as [H1 H2]. auto.
+Qed.
+
+Section Closure.
+  Variable cx : ctx.
+  Hypothesis TOK : tables_ok cx.
+
+  (* the package of every named type mentioned by any variable of the file is imported
+     under the qualifier the variable's type string uses (and the file's own package, when
+     the file is in-package, is never imported and its types are rendered bare) *)
+  Definition closed_for (dstp : str) (inp : bool) (f : fdata) (v : var_) (p : str) : Prop :=
+    if seqb p dstp && inp then qual_of (vimps v) p = []
+    else exists i, In i (f_imports f) /\ ipath i = p /\ qual_of (vimps v) p = qualifier i /\
+                   find_qual (qualifier i) (f_imports f) = Some i /\
+                   (pkg_name cx p <> [] -> qualifier i <> []).
+
+  Theorem import_closure dstp inp is :
+    let f := gen_file cx dstp inp is in
+    NoDup (map ipath (f_imports f)) /\ NoDup (map qualifier (f_imports f)) /\
+    forall id v p, In id (f_ifaces f) -> In v (ivars id) -> In p (imports_of (vty v)) -> closed_for dstp inp f v p.
+  Proof.
+    intros f. pose proof (gen_file_spec cx TOK dstp inp is) as GS. cbv zeta in GS. fold f in GS.
+    destruct GS as (RI & NI & D & I & _ & KI).
+    pose proof (imports_sorted_perm (f_registry f)) as PM.
+    assert (NDq : NoDup (map qualifier (f_imports f))).
+    { eapply Permutation_NoDup; [apply Permutation_map, PM | apply RI]. }
+    split; [eapply Permutation_NoDup; [apply Permutation_map, PM | apply RI]|]. split; [exact NDq|].
+    intros id v p Hid Hv Hp. unfold closed_for.
+    rewrite Forall_forall in KI.
+    assert (KV : KInv (f_registry f) (vkey v)).
+    { apply KI. apply in_map. apply in_flat_map. exists id. auto. }
+    destruct KV as [MI CL]. specialize (CL p Hp). simpl in MI, CL.
+    destruct (lookup_imp p (vimps v)) as [o|] eqn:L; [|congruence].
+    specialize (MI p o L). rewrite (qual_of_lookup _ _ _ L).
+    destruct o as [i|]; simpl in MI.
+    - destruct MI as (NS & Hin & Pi).
+      destruct (seqb p dstp && inp) eqn:S.
+      { exfalso. apply NS. apply andb_true_iff in S as [S1 S2]. apply seqb_eq in S1. unfold self. rewrite D, I. auto. }
+      assert (Hin' : In i (f_imports f)) by (eapply Permutation_in; [exact PM | exact Hin]).
+      exists i. split; [exact Hin'|]. split; [exact Pi|]. split; [reflexivity|]. split.
+      + now apply find_qual_in_nodup.
+      + intros NE. specialize (NI i Hin). rewrite Pi in NI. unfold qualifier. destruct (ialias i); [congruence | discriminate].
+    - destruct MI as [MI1 MI2]. rewrite D in MI1. rewrite I in MI2. subst. rewrite seqb_refl. reflexivity.
+  Qed.
+End Closure.
+
+(* ---------- scoping side conditions ---------- *)
+Section Guard.
+  Variable cx : ctx.
+  Variable E : env.
+  Variable inp : bool.
+
+  (* what must hold of one reference of the SOURCE type for the bare identifiers / the
+     qualifier to mean in the destination file what they meant in the source file *)
+  Definition ref_guard (qf : str -> str) (r : ref) : bool :=
+    match r with
+    | RefTParam n => negb (smem n (e_shadow E)) && smem n (e_tparams E)
+    | RefObj None n =>
+        negb (smem n (e_shadow E)) && negb (smem n (e_tparams E)) &&
+        negb (smem n (map qualifier (e_imports E))) && negb (smem n (e_local E))
+    | RefObj (Some p) n =>
+        if seqb p (e_dst E) && inp
+        then negb (smem n (e_shadow E)) && negb (smem n (e_tparams E)) &&
+             negb (smem n (map qualifier (e_imports E))) && smem n (e_local E)
+        else negb (is_nil (pkg_name cx p)) &&
+             negb (smem (qf p) (e_shadow E)) && negb (smem (qf p) (e_tparams E)) && negb (smem (qf p) (e_local E))
+    end.
+
+  Definition closed_ref (qf : str -> str) (r : ref) : Prop :=
+    match r with
+    | RefObj (Some p) _ =>
+        if seqb p (e_dst E) && inp then qf p = []
+        else exists i, find_qual (qf p) (e_imports E) = Some i /\ ipath i = p /\ (pkg_name cx p <> [] -> qf p <> [])
+    | _ => True
+    end.
+
+  Lemma ref_guard_ok qf r : closed_ref qf r -> ref_guard qf r = true -> ref_ok E qf r.
+  Proof.
+    destruct r as [[p|] n|n]; simpl.
+    - destruct (seqb p (e_dst E) && inp) eqn:S.
+      + intros -> G a. apply andb_true_iff in S as [S _]. apply seqb_eq in S. subst p.
+        repeat (apply andb_true_iff in G as [G ?]).
+        unfold resolve_name.
+        repeat match goal with H : negb ?b = true |- _ => apply negb_true_iff in H; rewrite H end.
+        rewrite H. reflexivity.
+      + intros (i & F & Pi & NE) G a. repeat (apply andb_true_iff in G as [G ?]).
+        apply negb_true_iff in G. assert (Q : qf p <> []) by (apply NE; destruct (pkg_name cx p); [discriminate | discriminate]).
+        unfold resolve_name. destruct (qf p) as [|c q] eqn:Eq; [congruence|].
+        repeat match goal with H : negb ?b = true |- _ => apply negb_true_iff in H; rewrite H end.
+        simpl. rewrite F, Pi. reflexivity.
+    - intros _ G a. repeat (apply andb_true_iff in G as [G ?]).
+      unfold resolve_name.
+      repeat match goal with H : negb ?b = true |- _ => apply negb_true_iff in H; rewrite H end.
+      apply negb_true_iff in G. rewrite G. reflexivity.
+    - intros _ G. apply andb_true_iff in G as [G1 G2]. apply negb_true_iff in G1.
+      unfold resolve_name. rewrite G1, G2. reflexivity.
+  Qed.
+End Guard.
